@@ -172,8 +172,43 @@ def holds (c : CertFields) (subj : Option (List (List (DN.Oid × DN.Runes)))) (g
       else "holds"
   | _ => "FAILS a well-formed certificate is not described"
 
+/-- `certx <der> (<FIELD> <hex>)*`: expectations known by construction of a hand-assembled certificate -/
+def holdsX (fields : List (String × Bytes)) (impl : String) : String :=
+  match (impl.splitOn " ").filter (· ≠ "") with
+  | "ok" :: toks =>
+    match Info.parse toks with
+    | none => "FAILS unparsable impl info"
+    | some i =>
+      let isInfix (a b : Bytes) : Bool := (List.range (b.length + 1)).any fun k => a.isPrefixOf (b.drop k)
+      let child := i.children.head?
+      let bad := fields.findSome? fun (f, v) =>
+        match f with
+        | "NB" => if i.attrValues "Not before" == [v] then none else some "validity dates: 'Not before' is not the UTC date of the encoded instant"
+        | "NA" => if i.attrValues "Not after" == [v] then none else some "validity dates: 'Not after' is not the UTC date of the encoded instant"
+        | "SIG" => if (i.attrValues "Signature algorithm").any (isInfix v) then none else some "signature algorithm: the encoded algorithm is not shown (neither by name nor by OID)"
+        | "SUBJ" => if i.attrValues "Subject" == [v] then none else some "subject: the name is not rendered as the encoded RDN structure (RFC 4514)"
+        | "KEYALG" => if (child.map fun c => c.attrValues "Algorithm" == [v]) == some true then none else some "public key: algorithm of the subject key not shown"
+        | "KEYSIZE" => if (child.map fun c => c.attrValues "Size" == [v]) == some true then none else some "public key: size of the subject key not shown"
+        | "DESC" => if v.isPrefixOf i.desc then none else some "role: description differs"
+        | _ => some "unknown expectation field"
+      match bad with
+      | some e => "FAILS " ++ e
+      | none => "holds"
+  | _ => "FAILS a well-formed certificate is not described"
+
+def parseFields : List String → Option (List (String × Bytes))
+  | [] => some []
+  | f :: v :: rest => match bytesOfHexStr v, parseFields rest with
+    | some b, some l => some ((f, b) :: l)
+    | _, _ => none
+  | _ => none
+
 def handle (op : String) (args : List String) (impl : String) : Option (String × String) :=
-  if op = "cert" ∨ op = "certpem" then
+  if op = "certx" ∨ op = "certxpem" then
+    match args with
+    | _ :: rest => (parseFields rest).map fun fs => ("skip", holdsX fs impl)
+    | [] => none
+  else if op = "cert" ∨ op = "certpem" then
     match parseCase.run args with
     | some ((c, subj, g), _) => some ("ok " ++ (certInfo c).show, holds c subj g impl)
     | none => none
